@@ -23,7 +23,7 @@ type Opts struct {
 var AllFeatures = []string{
 	"async", "err", "multi", "bind", "struct", "value", "sets", "lit", "ext", "ctxparam",
 	"composite", "basic", "args", "unneeded", "multi-inj", "multi-file", "dupparam",
-	"generic", "variadic", "variadic-functype", "want-unsupplied", "kalias", "extalias", "value-and-pointer", "rewrap", "struct-both-forms", "alias-basic", "ctx-provider",
+	"generic", "variadic", "variadic-functype", "want-unsupplied", "kalias", "extalias", "value-and-pointer", "rewrap", "struct-both-forms", "alias-basic", "ctx-provider", "implements-error", "adv-pkg-shadowed-by-later-decl",
 	"async-struct", "ptrrecv", "aiface", "embedded",
 }
 
@@ -58,6 +58,7 @@ type gen struct {
 	curExt   string
 	family   string
 	ctxSupplied bool
+	aliasType   TypeID
 	ctxUsed     bool
 	bundle   map[TypeID][]TypeID // field type -> sibling field types and the struct type of its expansion
 	pending  map[TypeID]bool
@@ -205,7 +206,7 @@ func (g *gen) ensureExt() *Ext {
 	if len(g.c.Exts) == 0 {
 		e := Ext{Key: "ext", Path: "extlib", Name: "extlib"}
 		if g.o.Adversarial {
-			switch rapid.IntRange(0, 4).Draw(g.rt, "advext") {
+			switch rapid.IntRange(0, 5).Draw(g.rt, "advext") {
 			case 1:
 				e.Path, e.Name = "x/errgroup", "errgroup"
 				g.c.AddFeature("adv-pkg-errgroup")
@@ -216,6 +217,15 @@ func (g *gen) ensureExt() *Ext {
 				e.Path, e.Name = "x/kessoku", "kessoku"
 				g.c.KAlias = "ksk"
 				g.c.AddFeature("adv-pkg-kessoku")
+			case 4:
+				// the package is imported under an alias; its plain name is also a package-level
+				// identifier of the user package, declared in a file that sorts after the injector files
+				e.Path, e.Name, e.Alias = "x/config", "config", "cfgx"
+				if !g.used["config"] {
+					g.used["config"] = true
+					g.c.PkgNames = append(g.c.PkgNames, "config")
+				}
+				g.c.AddFeature("adv-pkg-shadowed-by-later-decl")
 			}
 		}
 		if e.Name == "extlib" && g.want("extalias", "extalias", 30) {
@@ -266,6 +276,10 @@ func (g *gen) newStruct(pkg string, withFields bool) TypeID {
 	}
 	if pkg == "" && g.want("ptrrecv", "ptrrecv", 20) {
 		t.PtrRecv = true
+	}
+	if pkg == "" && !withFields && g.want("implements-error", "implerror", 6) {
+		// a value type that happens to implement the error interface is still a value
+		t.ImplError = true
 	}
 	return g.addType(t)
 }
@@ -327,17 +341,43 @@ func (g *gen) freshValueType(extOnly bool, label string) TypeID {
 	case 4:
 		return g.addType(Type{Kind: KNBasic, Name: g.typeName("N"), Basic: rapid.SampledFrom(nbasicUnder).Draw(g.rt, "under")})
 	case 5:
+		if g.aliasType != 0 && g.allow("composite") && rapid.IntRange(0, 99).Draw(g.rt, "aliascomp") < 50 {
+			// a composite or generic instance over the two-spelling type: []byte vs []uint8, Box[any] vs Box[interface{}]
+			k := rapid.IntRange(0, 2).Draw(g.rt, "aliascompkind")
+			key := "aliascomp" + string(rune('0'+k))
+			if !g.basicsUsed[key] {
+				g.basicsUsed[key] = true
+				g.c.AddFeature("alias-in-composite")
+				switch k {
+				case 0:
+					return g.addType(Type{Kind: KSlice, Elem: g.aliasType})
+				case 1:
+					if g.allow("generic") {
+						g.used["Box"] = true
+						g.c.AddFeature("generic")
+						return g.addType(Type{Kind: KGeneric, Name: "Box", Elem: g.aliasType})
+					}
+					return g.addType(Type{Kind: KArray, Elem: g.aliasType, Len: 2})
+				default:
+					ks := g.addType(Type{Kind: KBasic, Basic: "string"})
+					return g.addType(Type{Kind: KMap, Key: ks, HasKey: true, Elem: g.aliasType})
+				}
+			}
+		}
 		if !g.basicsUsed["alias"] && g.want("alias-basic", "aliasbasic", 30) {
 			// a type with two spellings: results say uint8 / int32, parameters say byte / rune
 			g.basicsUsed["alias"] = true
 			if rapid.Bool().Draw(g.rt, "aliaswhich") && !g.basicsUsed["byte"] {
 				g.basicsUsed["byte"] = true
-				return g.addType(Type{Kind: KBasic, Basic: "uint8", AltSpell: "byte"})
+				g.aliasType = g.addType(Type{Kind: KBasic, Basic: "uint8", AltSpell: "byte"})
+				return g.aliasType
 			}
 			if rapid.Bool().Draw(g.rt, "aliasany") {
-				return g.addType(Type{Kind: KBasic, Basic: "interface{}", AltSpell: "any"})
+				g.aliasType = g.addType(Type{Kind: KBasic, Basic: "interface{}", AltSpell: "any"})
+				return g.aliasType
 			}
-			return g.addType(Type{Kind: KBasic, Basic: "int32", AltSpell: "rune"})
+			g.aliasType = g.addType(Type{Kind: KBasic, Basic: "int32", AltSpell: "rune"})
+			return g.aliasType
 		}
 		if g.allow("basic") {
 			var free []string
@@ -412,6 +452,7 @@ func (g *gen) freshValueType(extOnly bool, label string) TypeID {
 		return g.newStruct("", false)
 	default:
 		if g.want("generic", "generic", 100) {
+			g.c.AddFeature("generic")
 			el := g.newStruct("", false)
 			if rapid.Bool().Draw(g.rt, "generic-elem") && !g.basicsUsed["box-int"] {
 				g.basicsUsed["box-int"] = true
